@@ -78,7 +78,7 @@ fn main() {
         "value" => valuecheck::run(&gets(&m, "in", ""), &gets(&m, "out", "/tmp/icverif")),
         "xlsxrt1" => xlsxrt::replay_one(&gets(&m, "in", "")),
         "xlsxrt" => xlsxrt::run(&gets(&m, "out", "/tmp/icverif"), geti(&m, "seed", 1) as u64, geti(&m, "runs", 10) as usize, geti(&m, "steps", 40) as usize, geti(&m, "every", 8) as usize),
-        "structural" => structural::replay(&gets(&m, "in", ""), &gets(&m, "out", "/tmp/icverif")),
+        "structural" => structural::replay(&gets(&m, "in", ""), &gets(&m, "out", "/tmp/icverif"), &gets(&m, "prop", "")),
         "styles" => behreplay::replay_styles(&gets(&m, "in", ""), &gets(&m, "out", "/tmp/icverif")),
         "tokens" => cases::tokens(&gets(&m, "in", ""), &gets(&m, "out", "/tmp/icverif"), getb(&m, "thorough"), geti(&m, "skip", 0) as usize),
         "finite" => cases::finite(&gets(&m, "in", ""), &gets(&m, "out", "/tmp/icverif"), getb(&m, "thorough"), geti(&m, "skip", 0) as usize),
